@@ -468,6 +468,107 @@ theorem parseLine_ttl (ctx : Ctx) (n : Nat) (hn : n ≤ 4294967295) (sep ws cmt 
   simp only [bind, P.bind, hskip, show parseU32 = parseUInt 4294967295 from rfl, hread,
     expectEol_eolG ws cmt hws hc crlf r, pure, P.pure]
 
+theorem include_bytes : "$INCLUDE".toUTF8.toList = [36, 73, 78, 67, 76, 85, 68, 69] := by decide +kernel
+
+/-- what the writer of an include path must respect -/
+structure WFPath (s : PString) : Prop where
+  forms : ∀ x ∈ s.octets, stringFormOK s.quoted x.1 x.2 = true
+  len : s.octets.length ≤ 65536
+  ne : s.quoted = false → s.octets ≠ []
+
+/-- `$INCLUDE <path> [<origin>]` yields the include request; the context is unchanged.  `X` is
+    what follows the path: the end of the line, or blanks and the origin -/
+theorem parseLine_incl (ctx : Ctx) (path : PString) (hp : WFPath path) (sep : List UInt8) (hne : sep ≠ [])
+    (hsep : ∀ x ∈ sep, isWs x = true) (X : List UInt8) (hX : atFieldEnd X = true) (line : Nat)
+    (o : Option (List UInt8)) (r : List UInt8) (line' : Nat)
+    (hrest : (do
+        if (← skipToNextFieldOrThroughEol) == .Eol then pure (Item.incl line (stringOctets path) ctx.origin)
+        else
+          let origin ← pName ctx
+          expectEol
+          pure (Item.incl line (stringOctets path) (some origin)) : P Item) ⟨X, line + stringLines path, false⟩ =
+      .ok (.incl line (stringOctets path) o, ⟨r, line', false⟩)) :
+    parseLine ctx ⟨[36, 73, 78, 67, 76, 85, 68, 69] ++ (sep ++ (stringText path ++ X)), line, false⟩ =
+      .ok ((some (.incl line (stringOctets path) o), ctx), ⟨r, line', false⟩) := by
+  have hcmp1 : ∀ Y : List UInt8, eqIgnoreCase (List.take 7 (36 :: 73 :: 78 :: 67 :: 76 :: 85 :: 68 :: 69 :: Y))
+      [36, 79, 82, 73, 71, 73, 78] = false := by
+    intro Y; simp [eqIgnoreCase, lowerU8]
+  have hcmp2 : ∀ Y : List UInt8, eqIgnoreCase (List.take 4 (36 :: 73 :: 78 :: 67 :: 76 :: 85 :: 68 :: 69 :: Y))
+      [36, 84, 84, 76] = false := by
+    intro Y; simp [eqIgnoreCase, lowerU8]
+  have hnot1 : ∀ Y : List UInt8, expectFieldCI [36, 79, 82, 73, 71, 73, 78]
+      ⟨36 :: 73 :: 78 :: 67 :: 76 :: 85 :: 68 :: 69 :: Y, line, false⟩ =
+      (false, ⟨36 :: 73 :: 78 :: 67 :: 76 :: 85 :: 68 :: 69 :: Y, line, false⟩) := by
+    intro Y
+    unfold expectFieldCI expectFieldImpl
+    split
+    · rfl
+    · simp only [show ([36, 79, 82, 73, 71, 73, 78] : List UInt8).length = 7 from rfl, hcmp1, Bool.false_and,
+        Bool.false_eq_true, ↓reduceIte]
+  have hnot2 : ∀ Y : List UInt8, expectFieldCI [36, 84, 84, 76]
+      ⟨36 :: 73 :: 78 :: 67 :: 76 :: 85 :: 68 :: 69 :: Y, line, false⟩ =
+      (false, ⟨36 :: 73 :: 78 :: 67 :: 76 :: 85 :: 68 :: 69 :: Y, line, false⟩) := by
+    intro Y
+    unfold expectFieldCI expectFieldImpl
+    split
+    · rfl
+    · simp only [show ([36, 84, 84, 76] : List UInt8).length = 4 from rfl, hcmp2, Bool.false_and,
+        Bool.false_eq_true, ↓reduceIte]
+  have hexp : expectFieldCI [36, 73, 78, 67, 76, 85, 68, 69]
+      ⟨36 :: 73 :: 78 :: 67 :: 76 :: 85 :: 68 :: 69 :: (sep ++ (stringText path ++ X)), line, false⟩ =
+      (true, ⟨sep ++ (stringText path ++ X), line, false⟩) := by
+    unfold expectFieldCI expectFieldImpl
+    simp [eqIgnoreCase, atFieldEnd_sep sep _ hne hsep]
+  have hstarts := (stringText_starts_of path hp.forms hp.ne).append X
+  obtain ⟨c, t, hct, hcs⟩ := hstarts
+  have hskip := skipToNextField_gap .ExpectedIncludePath sep hsep c t hcs line false
+  have hpath := parseString_render Gen.INCLUDE_PATH_MAX .IncludePathTooLong .EofInQuotedIncludePath path hp.forms
+    (by simpa [Gen.INCLUDE_PATH_MAX] using hp.len) hp.ne X hX line false
+  unfold parseLine
+  simp only [List.cons_append, List.nil_append, beq_self_eq_true, ↓reduceIte]
+  unfold parseDirective
+  simp only [bind, P.bind, liftB, origin_bytes, ttl_bytes, include_bytes, hnot1, hnot2, Bool.false_eq_true, ↓reduceIte,
+    hexp]
+  unfold parseIncludeDirective parseIncludePath
+  simp only [bind, P.bind, getLine, hct, hskip]
+  rw [← hct, hpath]
+  simp only [bind, P.bind, pure, P.pure] at hrest ⊢
+  rw [hrest]
+
+/-- the rest of an `$INCLUDE` line without origin -/
+theorem incl_rest_plain (ctx : Ctx) (line0 : Nat) (path : List UInt8) (ws cmt : List UInt8) (crlf : Bool)
+    (r : List UInt8) (hws : ∀ x ∈ ws, isWs x = true) (hc : commentOK cmt) (line : Nat) :
+    (do
+        if (← skipToNextFieldOrThroughEol) == .Eol then pure (Item.incl line0 path ctx.origin)
+        else
+          let origin ← pName ctx
+          expectEol
+          pure (Item.incl line0 path (some origin)) : P Item) ⟨ws ++ (cmt ++ (eolText crlf ++ r)), line, false⟩ =
+      .ok (.incl line0 path ctx.origin, ⟨r, line + 1, false⟩) := by
+  simp only [bind, P.bind, skipToNextFieldOrThroughEol, fieldOrEol_eolG ws cmt hws hc crlf r line,
+    beq_self_eq_true, ↓reduceIte, pure, P.pure]
+
+/-- the rest of an `$INCLUDE` line with an origin -/
+theorem incl_rest_origin (ctx : Ctx) (line0 : Nat) (path : List UInt8) (sep2 : List UInt8) (hne : sep2 ≠ [])
+    (hsep : ∀ x ∈ sep2, isWs x = true) (T w : List UInt8) (k : Nat) (hn : NameTextOK ctx.origin T w k)
+    (ws cmt : List UInt8) (crlf : Bool) (r : List UInt8) (hws : ∀ x ∈ ws, isWs x = true) (hc : commentOK cmt)
+    (line : Nat) :
+    (do
+        if (← skipToNextFieldOrThroughEol) == .Eol then pure (Item.incl line0 path ctx.origin)
+        else
+          let origin ← pName ctx
+          expectEol
+          pure (Item.incl line0 path (some origin)) : P Item)
+        ⟨sep2 ++ (T ++ (ws ++ (cmt ++ (eolText crlf ++ r)))), line, false⟩ =
+      .ok (.incl line0 path (some w), ⟨r, line + k + 1, false⟩) := by
+  obtain ⟨c, t, hct, hcs⟩ := hn.starts.append (ws ++ (cmt ++ (eolText crlf ++ r)))
+  have hEnd := atFieldEnd_eolG ws cmt hws hc crlf r
+  have hb : ((FieldOrEol.Field == FieldOrEol.Eol) = true) = False := by simp
+  simp only [bind, P.bind, skipToNextFieldOrThroughEol, hct, fieldOrEol_gap true sep2 hsep c t hcs line false, hb,
+    ↓reduceIte]
+  rw [← hct]
+  simp only [pName, hn.parse _ line false hEnd, expectEol_eolG ws cmt hws hc crlf r, pure, P.pure]
+
 /-! ### whole files -/
 
 theorem collect_item {p p' : Parser} {i : Item} (hn : p.next = (some (.item i), p'))
@@ -522,8 +623,13 @@ def WFEntry : PEntry → Prop
     WFName (.abs ls) ∧ sep ≠ [] ∧ (∀ x ∈ sep, isWs x = true) ∧ (∀ x ∈ trail, isWs x = true) ∧ commentOK cmt
   | .ttl n sep trail cmt _ =>
     n ≤ 4294967295 ∧ sep ≠ [] ∧ (∀ x ∈ sep, isWs x = true) ∧ (∀ x ∈ trail, isWs x = true) ∧ commentOK cmt
+  | .incl path origin sep sep2 trail cmt _ =>
+    WFPath path ∧ (∀ n, origin = some n → WFName n ∧ sep2 ≠ [] ∧ ∀ x ∈ sep2, isWs x = true) ∧
+      sep ≠ [] ∧ (∀ x ∈ sep, isWs x = true) ∧ (∀ x ∈ trail, isWs x = true) ∧ commentOK cmt
 
-def itemOf (sr : SRecord) : Yield := .item (.record sr.line ⟨sr.owner, sr.ttl, sr.cls, sr.ty, sr.rdata⟩)
+def itemOf : SItem → Yield
+  | .record sr => .item (.record sr.line ⟨sr.owner, sr.ttl, sr.cls, sr.ty, sr.rdata⟩)
+  | .incl line path origin => .item (.incl line path origin)
 
 /-- stepping over a line that yields nothing, in the run -/
 theorem collect_skip {ctx ctx' : Ctx} (hctx : CtxWF ctx) {text R : List UInt8} {line line' : Nat}
@@ -541,7 +647,7 @@ theorem collect_skip {ctx ctx' : Ctx} (hctx : CtxWF ctx) {text R : List UInt8} {
     (all with RDATA valid for class and type) parses to exactly those records, in order, with
     their line numbers — from any well-formed context and line. -/
 theorem collect_file (es : List PEntry) (hwf : ∀ e ∈ es, WFEntry e) (ctx : Ctx) (hctx : CtxWF ctx)
-    (line : Nat) (srs : List SRecord) (hden : denoteFile validB es (toSCtx ctx) line = some srs) :
+    (line : Nat) (srs : List SItem) (hden : denoteFile validB es (toSCtx ctx) line = some srs) :
     collect ⟨false, ⟨renderFile es, line, false⟩, ctx⟩ = srs.map itemOf := by
   induction es generalizing ctx line srs with
   | nil =>
@@ -603,6 +709,63 @@ theorem collect_file (es : List PEntry) (hwf : ∀ e ∈ es, WFEntry e) (ctx : C
       obtain ⟨hc, hctx'⟩ := collect_skip hctx hline' (by simp)
       rw [hc]
       exact ih hwf' _ hctx' _ srs (by simpa [toSCtx, ttlFrom, ttlValue] using hden)
+    | incl path origin sep sep2 trail cmt crlf =>
+      obtain ⟨hpath, horig, hne, hsep, htrail, hcmt⟩ := hwf (.incl path origin sep sep2 trail cmt crlf) (by simp)
+      -- once the line is evaluated: the request, then the rest of the file
+      have fin : ∀ (o : Option (List UInt8)) (line' : Nat) (rest : List SItem),
+          parseLine ctx ⟨renderEntry (.incl path origin sep sep2 trail cmt crlf) ++ renderFile es, line, false⟩ =
+            .ok ((some (.incl line (stringOctets path) o), ctx), ⟨renderFile es, line', false⟩) →
+          denoteFile validB es (toSCtx ctx) line' = some rest →
+          collect ⟨false, ⟨renderFile (.incl path origin sep sep2 trail cmt crlf :: es), line, false⟩, ctx⟩ =
+            (SItem.incl line (stringOctets path) o :: rest).map itemOf := by
+        intro o line' rest hline hrest
+        have hne' : renderEntry (.incl path origin sep sep2 trail cmt crlf) ++ renderFile es ≠ [] := by
+          simp [renderEntry]
+        have hu : untilData ctx ⟨renderEntry (.incl path origin sep sep2 trail cmt crlf) ++ renderFile es, line, false⟩ =
+            .ok ((some (.incl line (stringOctets path) o), ctx), ⟨renderFile es, line', false⟩) := by
+          rw [untilData]
+          cases hw : renderEntry (.incl path origin sep sep2 trail cmt crlf) ++ renderFile es with
+          | nil => exact absurd hw hne'
+          | cons c t => simp only; rw [← hw, hline]
+        rw [hrf]
+        have hnext := next_of_untilData hu
+        have g := next_spec (p := ⟨false, ⟨renderEntry (.incl path origin sep sep2 trail cmt crlf) ++ renderFile es, line, false⟩, ctx⟩) hctx
+        rw [hnext] at g
+        rw [collect_item hnext g.2.2]
+        simp only [List.map_cons, itemOf]
+        congr 1
+        exact ih hwf' ctx g.2.1 _ rest hrest
+      cases origin with
+      | none =>
+        simp only [denoteFile, bind, Option.bind, Nat.add_zero] at hden
+        cases hrest : denoteFile validB es (toSCtx ctx) (line + stringLines path + 1) with
+        | none => simp [hrest] at hden
+        | some rest =>
+          simp only [hrest, pure, Option.some.injEq] at hden
+          subst hden
+          have hr := incl_rest_plain ctx line (stringOctets path) trail cmt crlf (renderFile es) htrail hcmt
+            (line + stringLines path)
+          have := parseLine_incl ctx path hpath sep hne hsep _ (atFieldEnd_eolG trail cmt htrail hcmt crlf (renderFile es))
+            line ctx.origin (renderFile es) _ hr
+          exact fin ctx.origin _ rest (by simpa [renderEntry] using this) hrest
+      | some n =>
+        obtain ⟨hn, hne2, hsep2⟩ := horig n rfl
+        simp only [denoteFile, bind, Option.bind] at hden
+        cases hw : nameWire (toSCtx ctx).origin n with
+        | none => simp [hw] at hden
+        | some w =>
+          simp only [hw, Option.map_some] at hden
+          cases hrest : denoteFile validB es (toSCtx ctx) (line + stringLines path + nameLines n + 1) with
+          | none => simp [hrest] at hden
+          | some rest =>
+            simp only [hrest, pure, Option.some.injEq] at hden
+            subst hden
+            have hnt := nameText_ok ctx.origin hctx.1 n hn w hw
+            have hr := incl_rest_origin ctx line (stringOctets path) sep2 hne2 hsep2 (nameText n) w (nameLines n) hnt
+              trail cmt crlf (renderFile es) htrail hcmt (line + stringLines path)
+            have := parseLine_incl ctx path hpath sep hne hsep _ (atFieldEnd_sep sep2 _ hne2 hsep2)
+              line (some w) (renderFile es) _ hr
+            exact fin (some w) _ rest (by simpa [renderEntry] using this) hrest
     | record p =>
       have hp := hwf (.record p) (by simp)
       simp only [denoteFile, bind, Option.bind] at hden
